@@ -590,11 +590,12 @@ func (cs *supply) neededSharableCount(n Node) int {
 	return need
 }
 
-// shortWithout returns a pool in the subtree of this one (itself included) which the
-// given CPUs would leave with fewer sharable CPUs than it needs, or nil.
+// shortWithout returns a pool which the given CPUs would leave with fewer sharable
+// CPUs than it needs, or nil. The CPUs of a pool are shared with the pools below and
+// above it, so all pools are looked at.
 func (cs *supply) shortWithout(cset cpuset.CPUSet) Node {
 	var short Node
-	cs.node.DepthFirst(func(d Node) {
+	cs.node.Policy().root.DepthFirst(func(d Node) {
 		if short != nil {
 			return
 		}
